@@ -139,6 +139,8 @@ type c10Where struct {
 	fn      int
 	inLoop  bool
 	inDefer bool
+	inCatch bool // directly in a catch block that sits inside a loop of this function
+	inTry   bool // inside a try body of this function (a later raise is caught here)
 	depth   int
 }
 
@@ -172,8 +174,20 @@ func (g *c10Gen) stmt(w c10Where) []c10Stmt {
 	in := w
 	in.depth++
 
+	// bias: a catch block inside a loop often ends the iteration (break / continue out of a catch
+	// block), and the body of an enclosing try often fails again after an inner statement is done.
+	if !g.goOnly {
+		if w.inCatch && w.inLoop && g.r.Intn(4) == 0 {
+			return []c10Stmt{g.emit(), g.leave()}
+		}
+
+		if w.inTry && g.r.Intn(12) == 0 {
+			return []c10Stmt{{Op: 'R'}, g.emit()}
+		}
+	}
+
 	for {
-		switch k := g.r.Intn(20); {
+		switch k := g.r.Intn(21); {
 		case k < 3:
 			return []c10Stmt{g.emit()}
 		case k < 5 && !g.goOnly:
@@ -181,13 +195,16 @@ func (g *c10Gen) stmt(w c10Where) []c10Stmt {
 		case k < 6:
 			return []c10Stmt{{Op: 'P', N: 50 + g.r.Intn(40)}, g.emit()}
 		case k < 10 && deepOK && !g.goOnly:
-			body := g.block(in, 1)
-			cat := g.block(in, 1)
+			tb, tc := in, in
+			tb.inTry, tb.inCatch = true, false
+			tc.inCatch = w.inLoop
+			body := g.block(tb, 1)
+			cat := g.block(tc, 1)
 
 			return []c10Stmt{{Op: 'T', A: body, B: cat}, g.emit()}
 		case k < 13 && deepOK:
 			d := in
-			d.inLoop, d.inDefer = false, true
+			d.inLoop, d.inDefer, d.inCatch, d.inTry = false, true, false, false
 			body := g.block(d, 0)
 
 			if g.r.Intn(3) == 0 {
@@ -204,7 +221,7 @@ func (g *c10Gen) stmt(w c10Where) []c10Stmt {
 		case k < 18 && deepOK:
 			g.loopID++
 			l := in
-			l.inLoop = true
+			l.inLoop, l.inCatch = true, false
 			id := g.loopID
 
 			return []c10Stmt{{Op: 'L', ID: id, N: 1 + g.r.Intn(3), A: g.block(l, 1)}, g.emit()}
@@ -216,8 +233,107 @@ func (g *c10Gen) stmt(w c10Where) []c10Stmt {
 			return []c10Stmt{{Op: 'K'}}
 		case k < 20 && w.inDefer:
 			return []c10Stmt{{Op: 'V'}}
+		case k == 20 && deepOK && !g.goOnly:
+			return g.unwindShape(in)
 		}
 	}
+}
+
+// leave is a break or a continue.
+func (g *c10Gen) leave() c10Stmt {
+	if g.r.Intn(2) == 0 {
+		return c10Stmt{Op: 'B'}
+	}
+
+	return c10Stmt{Op: 'K'}
+}
+
+// some returns a short random block half of the time, else nothing.
+func (g *c10Gen) some(w c10Where) []c10Stmt {
+	if g.r.Intn(2) == 0 {
+		return nil
+	}
+
+	return g.stmt(w)
+}
+
+// unwindShape generates the family "an iteration is left from inside try statements that were
+// entered in the loop body, and the enclosing try statements of the same function are used
+// afterwards":
+//
+//	try {                                   1..2 outer levels
+//	    try {                               0..2 middle levels (try or loop)
+//	        for ... {
+//	            try { ...; raise } catch { ...; break|continue }     (or the break in the try body,
+//	        }                                                          or one more try level around it)
+//	    } catch { ... }
+//	    ...; raise; ...                     a later error in the outer body
+//	} catch { ... }
+//
+// All free positions are filled by the ordinary generator, so the family mixes with defer, calls,
+// return, panic and further loops.
+func (g *c10Gen) unwindShape(w c10Where) []c10Stmt {
+	w.depth += 3 // the shape itself is deep; keep the fillers shallow
+	tb := w
+	tb.inTry, tb.inCatch = true, false
+
+	lw := tb
+	lw.inLoop = true
+	cw := lw
+	cw.inCatch = true
+
+	// innermost statement: leaves the iteration from a catch block (3 of 4) or from a try body
+	var inner c10Stmt
+
+	if g.r.Intn(4) > 0 {
+		body := append(g.some(lw), c10Stmt{Op: 'R'}, g.emit())
+		cat := append(g.some(cw), g.emit(), g.leave())
+		inner = c10Stmt{Op: 'T', A: body, B: cat}
+	} else {
+		inner = c10Stmt{Op: 'T', A: append(g.some(lw), g.emit(), g.leave()), B: []c10Stmt{g.emit()}}
+	}
+
+	// optionally one more try level between the loop and the statement that leaves it
+	switch g.r.Intn(5) {
+	case 0:
+		inner = c10Stmt{Op: 'T', A: []c10Stmt{inner, g.emit()}, B: []c10Stmt{g.emit()}}
+	case 1:
+		inner = c10Stmt{Op: 'T', A: []c10Stmt{{Op: 'R'}}, B: []c10Stmt{g.emit(), inner, g.emit()}}
+	}
+
+	g.loopID++
+	cur := c10Stmt{Op: 'L', ID: g.loopID, N: 1 + g.r.Intn(3)}
+	cur.A = append(append(g.some(lw), inner), g.some(lw)...)
+	cur.A = append(cur.A, g.emit())
+
+	// middle levels: try statements (body or catch block holds the loop) and loops
+	for n := g.r.Intn(3); n > 0; n-- {
+		pre, post := g.some(tb), append(g.some(tb), g.emit())
+
+		switch g.r.Intn(6) {
+		case 0:
+			g.loopID++
+			cur = c10Stmt{Op: 'L', ID: g.loopID, N: 1 + g.r.Intn(2), A: append(append(pre, cur), post...)}
+		case 1:
+			cur = c10Stmt{Op: 'T', A: append(pre, c10Stmt{Op: 'R'}), B: append([]c10Stmt{g.emit(), cur}, post...)}
+		case 2:
+			cur = c10Stmt{Op: 'T', A: append(append(pre, cur), append(post, c10Stmt{Op: 'R'}, g.emit())...), B: append(g.some(tb), g.emit())}
+		default:
+			cur = c10Stmt{Op: 'T', A: append(append(pre, cur), post...), B: []c10Stmt{g.emit()}}
+		}
+	}
+
+	// outer levels: the body goes on after the middle statement and fails again
+	for n := 1 + g.r.Intn(2); n > 0; n-- {
+		body := append(g.some(tb), cur, g.emit())
+		body = append(body, g.some(tb)...)
+		body = append(body, c10Stmt{Op: 'R'}, g.emit())
+		cur = c10Stmt{Op: 'T', A: body, B: append(g.some(w), g.emit())}
+	}
+
+	g.budget -= 6
+
+	return []c10Stmt{cur, g.emit()}
 }
 
 func c10Generate(r *rand.Rand, maxDeep int, goOnly bool) c10Prog {
